@@ -31,7 +31,7 @@ RULE = ("documents with 1-5 operations and 0-4+ fragments in random definition o
 
 OP_NAMES = ["Op%d", "GetThing%d", "getThing%d", "get_thing_%d", "Q%dx", "UPPER_%d", "x%d", "My_Query%d", "HTTPQuery%d"]
 FLOOR = {"documents": 40, "query-bytes-compared": 150, "mode:all-operations": 40, "mode:selected-operation": 60, "mode:derive-exact": 40, "mode:derive-normalized": 10,
-         "mode:derive-no-match": 40, "mode:derive-needs-normalization": 10, "compiled-bodies": 10, "real-derives-match": 5, "real-derives-no-match": 5, "path-spellings": 20, "with-comment-or-cr": 20, "mode:derive-colliding-names": 3}
+         "mode:derive-no-match": 40, "mode:derive-needs-normalization": 10, "compiled-bodies": 10, "real-derives-match": 5, "real-derives-no-match": 5, "path-spellings": 20, "cli-file-name-cases": 9, "with-comment-or-cr": 20, "mode:derive-colliding-names": 3}
 
 
 def gen_doc(schema, rng, n_ops):
@@ -94,6 +94,47 @@ def module_view(inspect):
             mods[it["path"][0]][it["name"] + "_flatten"] = len([f for f in it["fields"] if f["serde"].get("flatten")])
     structs = [it["name"] for it in inspect.get("items", []) if it["kind"] == "struct" and not it["path"]]
     return mods, order, structs
+
+
+def cli_file_names(run, work):
+    """the CLI binary itself, no --selected-operation: one module per operation whatever the query FILE is called - also when
+    its stem is the name of one of the operations (exactly, in another case, as a prefix), and the selected one alone when the
+    flag names it"""
+    import re as _re
+    from .c02 import run_cli, DEADLOCK_RC
+    from ..factory import run_gendrv
+    d = os.path.join(work, "cli_names")
+    os.makedirs(d)
+    sp = os.path.join(d, "schema.graphql")
+    open(sp, "w").write("type Query { height(unit: String): Int echo(msg: String): String }\n")
+    doc = "query Heights($u: String) { height(unit: $u) }\nquery Echo($m: String) { echo(msg: $m) }\nquery echo_twice { a: echo b: echo }\n"
+    ops = ["Heights", "Echo", "echo_twice"]
+    jobs = []
+    for stem in ("Heights", "Echo", "echo_twice", "heights", "Echo2", "queries", "Query"):
+        jobs.append((stem, None))
+    jobs.append(("Heights", "Echo"))
+    jobs.append(("queries", "echo_twice"))
+    for ji, (stem, selected) in enumerate(jobs):
+        jd = os.path.join(d, "j%d" % ji)
+        os.makedirs(os.path.join(jd, "out"))
+        qp = os.path.join(jd, stem + ".graphql")
+        open(qp, "w").write(doc)
+        argv = ["generate", "--schema-path", sp, qp, "-o", os.path.join(jd, "out"), "--no-formatting"] + (["--selected-operation", selected] if selected else [])
+        run.evaluated()
+        run.count("cli-file-name-cases")
+        case = {"id": "cli-name-%s%s" % (stem, "-selected-" + selected if selected else ""), "corpus": "clean", "mode": "cli-binary", "argv": [a.replace(d, "$DIR") for a in argv], "doc_text": doc}
+        rc, so, se = run_cli(argv, cwd=jd)
+        out = os.path.join(jd, "out", stem + ".rs")
+        if rc == DEADLOCK_RC or rc != 0 or not os.path.exists(out):
+            run.violation(case, "CLI exit %s, output %s: %s" % (rc, "present" if os.path.exists(out) else "missing", se[-160:]))
+            continue
+        got = _re.findall(r'OPERATION_NAME\s*:\s*&\s*str\s*=\s*"([^"]*)"', open(out).read())
+        want = [selected] if selected else ops
+        if got != want:
+            run.violation(case, "query file %s.graphql%s: modules for operations %s, expected %s" % (stem, " with --selected-operation " + selected if selected else "", got, want))
+        else:
+            run.held()
+            run.nontrivial("cli-file-name", stem, selected)
 
 
 def path_spellings(run, work):
@@ -303,9 +344,10 @@ def main(run):
             if run.held_n % 150 == 1:
                 run.sample({"mode": mode, "options": m["options"], "document_text": m["text"][:400], "outcome": resp["outcome"], "message": (resp.get("message") or "")[:200]}, limit=6)
     path_spellings(run, work)
+    cli_file_names(run, work)
     compiled_part(run, compiled, work)
     shutil.rmtree(work, ignore_errors=True)
-    return run.finish(floor=FLOOR if run.tier == "quick" else {k: (v * 10 if k != "path-spellings" else v) for k, v in FLOOR.items()})     # (the path-spelling set is fixed)
+    return run.finish(floor=FLOOR if run.tier == "quick" else {k: (v * 10 if k not in ("path-spellings", "cli-file-name-cases") else v) for k, v in FLOOR.items()})     # (the path-spelling set is fixed)
 
 
 def compiled_part(run, compiled, work):
